@@ -361,29 +361,36 @@ def check(chk: Check) -> None:
     chk.part("writer-table", lambda: _writer_table(chk))
 
 
-def _writer_table(chk: Check) -> None:
+def _writer_table(chk: Check, rule: str = "C06.TABLE.writer") -> None:
     """C06.TABLE.writer: write function vs delimited flag in RDFLibJellySerializer.serialize."""
     prog = chk.program
     for delim in (True, False):
         for quads in (False, True):
+            for logical in (None, 0, 1, 2, 3, 4, 13, 14, 114):
 
-            def scenario(it: Interp) -> Any:
-                k = K.Kit(it)
-                opts = k.options(params=k.params(delimited=delim), logical_type=2 if quads else 1, lookup_preset=k.preset())
-                out = k.output()
-                ser = k.new(K.RS, "RDFLibJellySerializer", _rdflib_store(k, quads, 1))
-                k.method(ser, "serialize", out, options=opts)
-                return [m for m, _f in k.written_frames(out)], [e for e in it.events if e["kind"] == "serialize"]
+                def scenario(it: Interp) -> Any:
+                    k = K.Kit(it)
+                    kw = {} if logical is None else {"logical_type": logical}
+                    opts = k.options(params=k.params(delimited=delim), lookup_preset=k.preset(), **kw)
+                    out = k.output()
+                    ser = k.new(K.RS, "RDFLibJellySerializer", _rdflib_store(k, quads, 2))
+                    k.method(ser, "serialize", out, options=opts)
+                    return [m for m, _f in k.written_frames(out)], [e for e in it.events if e["kind"] == "serialize"]
 
-            for it, outcome in explore(prog, scenario, max_paths=16, generic_strings=True):
-                chk.paths += 1
-                inst = f"delimited={delim} quads={quads}"
-                if outcome[0] != "ok":
-                    chk.fail("C06.TABLE.writer", inst, "pyjelly.integrations.rdflib.serialize.RDFLibJellySerializer.serialize", f"raises {outcome[1]}")
-                    continue
-                modes, ser_events = outcome[1]
-                want = "delimited" if delim else "single"
-                if not modes or any(m != want for m in modes):
-                    chk.fail("C06.TABLE.writer", inst, "pyjelly.integrations.rdflib.serialize.RDFLibJellySerializer.serialize:writer-choice", f"params.delimited={delim} but frames were written as {modes}")
-                else:
-                    chk.ok("C06.TABLE.writer", inst, {"delimited": delim, "writes": modes})
+                for it, outcome in explore(prog, scenario, max_paths=16, generic_strings=True):
+                    chk.paths += 1
+                    inst = f"delimited={delim} quads={quads} logical_type={logical}"
+                    if outcome[0] != "ok":
+                        if logical is None or logical == (2 if quads else 1):
+                            chk.fail(rule, inst, "pyjelly.integrations.rdflib.serialize.RDFLibJellySerializer.serialize", f"raises {it.exc_class_name(outcome[1].exc)} at {outcome[1].site}")
+                        else:
+                            chk.ok(rule, inst, {"refused": it.exc_class_name(outcome[1].exc)})
+                        continue
+                    modes, ser_events = outcome[1]
+                    want = "delimited" if delim else "single"
+                    if not modes or any(m != want for m in modes):
+                        chk.fail(rule, inst, "pyjelly.integrations.rdflib.serialize.RDFLibJellySerializer.serialize:writer-choice", f"params.delimited={delim} but frames were written as {modes}")
+                    elif not delim and len(modes) != 1:
+                        chk.fail(rule, inst, "pyjelly.integrations.rdflib.serialize.RDFLibJellySerializer.serialize:writer-choice", f"non-delimited output consists of {len(modes)} frames written back to back (a reader sees one merged frame)")
+                    else:
+                        chk.ok(rule, inst, {"delimited": delim, "writes": modes})
